@@ -87,6 +87,9 @@ def run_overflow(ctx, spec, floor, label=""):
             continue
         for sk, d in sorted(per_site.items()):
             r = d["r"]
+            if r.precond is not None and len(r.chain) == 1:
+                T.table_used.add((r.precond[0], r.precond[1].get("kind"), r.precond[1].get("what")))
+                continue
             cf = ", ".join("(%d,%d)" % c if c else "-" for c in d["cfgs"][:8]) + ("..." if len(d["cfgs"]) > 8 else "")
             rep.violation("%s->%s" % (short(e), short(sk)), where,
                           "entry reaches `%s` at %s, which panics in builds with overflow checks and is not discharged "
@@ -135,6 +138,9 @@ def run(ctx, spec, floor, config="all", label="", own_only=False):
             continue
         for sk, d in sorted(per_site.items()):
             r = d["r"]
+            if r.precond is not None and len(r.chain) == 1:
+                T.table_used.add((r.precond[0], r.precond[1].get("kind"), r.precond[1].get("what")))
+                continue
             n_res += 1
             cf = ", ".join("(%d,%d)" % c if c else "-" for c in d["cfgs"][:8]) + ("..." if len(d["cfgs"]) > 8 else "")
             rep.violation("%s->%s" % (short(e), short(sk)), where,
